@@ -371,6 +371,11 @@ def run_pipeline(case):
             return res
         text, _info, _atoms = built
         opts = list(s3.OPTION_SETS[case["opt"]]) + [f"--ff={case['ff']}"]
+    titrate = bool(case.get("titrate"))
+    if titrate:
+        # the pKa path strips and rebuilds the hydrogens between the two
+        # debumping passes (no pKa row: every group keeps its state)
+        opts += ["--titration-state-method=propka", "--with-ph=7"]
     viol = []
     owner = {}  # id(Cells) -> biomolecule
     counts = {"queries": 0, "missed": 0}
@@ -466,7 +471,10 @@ def run_pipeline(case):
                      "finalize", "complete", "fix_flip", "fix", "rename"):
             if meth in cls.__dict__:
                 specs.append((cls, meth, audit(f"{cname}.{meth}")))
-    with pipeline.monitors(specs):
+    import contextlib
+
+    with pipeline.monitors(specs), (
+            pipeline.inject_pka([]) if titrate else contextlib.nullcontext()):
         r = pipeline.run(text, opts)
     ev = res["events"]
     if not r.ok:
@@ -517,6 +525,17 @@ def enumerate_cases(tier, seed):
     pipe += s3.two_water_cases("AMBER", names=["SER", "HIS", "ASN", "TYR",
                                                "ASH", "LYS"])
     pipe += s3.tetra_partner_cases("AMBER")
+    # two hydroxyl groups facing each other (donor placed, acceptor refuses:
+    # the undo paths of try_both)
+    pipe += s3.partner_cases("AMBER", ["SER", "THR", "TYR"],
+                             hosts=["SER", "THR", "TYR"],
+                             rots=range(0, 24, 2))
+    # fully hydrogenated inputs through the pKa path
+    for d in s3.bare_cases(["PARSE"], ["default"]):
+        d = dict(d)
+        d["hydrogens"] = True
+        d["titrate"] = True
+        pipe.append(d)
     if tier == "thorough":
         pipe += s3.clash_cases("AMBER")
         pipe += s3.partner_cases("AMBER", s3.PARTNERS[:6],
